@@ -63,7 +63,11 @@ pub fn run(ctx: &Ctx, id: &str) -> i32 {
         "canonical domain = fixed points of the reference codec (DESIGN 5.1); rejected candidates are counted per class under rejected.*".into(),
         "typed values are compared through derived Debug (field names + values) and the types' own PartialEq".into(),
     ];
-    let make: &(dyn Fn() -> Box<dyn Sut> + Sync) = &|| Box::new(InProc);
+    // a shipped decoder that does not come back / allocates without bound: this process ends itself with exit code 3
+    // and the operations in flight in a file; `./check` then runs `zvtmon runaway-confirm`, which runs each of them
+    // again alone in a fresh process before anything is reported (see refcodec::runaway)
+    refcodec::runaway::start_watchdog(runaway_file(id), std::time::Duration::from_secs(30), 4 << 20);
+    let make: &(dyn Fn() -> Box<dyn Sut> + Sync) = &|| Box::new(refcodec::runaway::Watched(InProc));
     run_types(ctx.threads, ctx.seed, &mut report, &schema, &keys, prop, id, &plan, make);
     presence_floor(&mut report, &schema, &keys);
     report.extra.insert("types".into(), json!(keys.len()));
@@ -79,6 +83,71 @@ pub fn run(ctx: &Ctx, id: &str) -> i32 {
     if matches!(prop, Prop::C01 | Prop::C03) {
         crate::also_in_release_build(&mut report, id, ctx);
     }
+    report.finish()
+}
+
+/// Where a codec check leaves the operations in flight when it ends itself as runaway (the release-build pass has a
+/// file of its own).
+pub fn runaway_file(id: &str) -> String {
+    let work = std::env::var("VERIF_WORK").unwrap_or_else(|_| "/verif/.build/main".into());
+    let rel = if std::env::var("VERIF_DUMP_JSON").is_ok() { "-rel" } else { "" };
+    format!("{work}/runaway-{id}{rel}.json")
+}
+
+/// `zvtmon decode-one <type> <hex> <report.json>`: one decode / re-encode / decode alone in this process, under the
+/// runaway monitor (10 s, 1 GiB).
+pub fn decode_one(args: &[String]) -> i32 {
+    refcodec::runaway::start_watchdog(args[2].clone(), std::time::Duration::from_secs(10), 1 << 20);
+    let bytes = refcodec::unhex(&args[1]).unwrap_or_default();
+    let _ = Sut::run(&mut refcodec::runaway::Watched(InProc), &args[0], &bytes);
+    0
+}
+
+/// The operations that were in flight when a codec check ended itself as runaway, each run again alone in a fresh
+/// process (`bin decode-one`).  Those that again do not come back are violations; returns how many there were.
+pub fn confirm_runaway(report: &mut refcodec::evidence::Report, id: &str, file: &str, bin: &str, prefix: &str) -> usize {
+    let text = std::fs::read_to_string(file).unwrap_or_default();
+    let _ = std::fs::remove_file(file);
+    let Ok(j) = serde_json::from_str::<serde_json::Value>(&text) else {
+        report.inconclusive(&format!("{prefix}the check ended itself as runaway but left no readable report ({file})"));
+        return 0;
+    };
+    let reason = j["reason"].as_str().unwrap_or("?").to_string();
+    let mut confirmed = 0;
+    let mut seen = std::collections::BTreeSet::new();
+    for op in j["ops"].as_array().cloned().unwrap_or_default().iter().take(16) {
+        let (Some(ty), Some(hexs), Some(kind)) = (op["type"].as_str(), op["bytes"].as_str(), op["kind"].as_str()) else { continue };
+        if kind == "construct + serialise" || !seen.insert((ty.to_string(), hexs.to_string())) {
+            continue;
+        }
+        let rep = format!("{file}.one");
+        let _ = std::fs::remove_file(&rep);
+        let st = std::process::Command::new(bin).args(["decode-one", ty, hexs, &rep]).stdout(std::process::Stdio::null()).stderr(std::process::Stdio::null()).status();
+        let again = std::fs::read_to_string(&rep).ok().and_then(|t| serde_json::from_str::<serde_json::Value>(&t).ok());
+        let _ = std::fs::remove_file(&rep);
+        if let (Ok(s), Some(a)) = (st, again) {
+            if s.code() == Some(refcodec::runaway::EXIT_RUNAWAY) {
+                confirmed += 1;
+                report.violation(
+                    &format!("{prefix}{ty}: a decode does not come back (no value, no error)"),
+                    &format!("{kind} of {} bytes: in the run: {reason}; alone in a fresh process: {}", hexs.len() / 2, a["reason"].as_str().unwrap_or("?")),
+                    json!({"kind": "runaway", "type": ty, "bytes": hexs, "operation": kind, "confirm_cmd": format!("{bin} decode-one {ty} {hexs} /dev/null")}),
+                );
+            }
+        }
+    }
+    if confirmed == 0 {
+        report.inconclusive(&format!("{prefix}the check ended itself ({reason}); none of the {} operations in flight did it again alone", j["ops"].as_array().map(|a| a.len()).unwrap_or(0)));
+    }
+    confirmed
+}
+
+/// `zvtmon runaway-confirm <ID> <file>`: verdict after a codec check ended itself as runaway.
+pub fn runaway_confirm(ctx: &Ctx, id: &str, file: &str) -> i32 {
+    let mut report = ctx.report(id, "exploration");
+    report.rule = "the check ended itself because an operation on a shipped type did not come back or memory ran away; every operation that was in flight is run again alone in a fresh process (10 s, 1 GiB): one that again does not come back is a violation, none => inconclusive".into();
+    let bin = std::env::current_exe().map(|p| p.display().to_string()).unwrap_or_default();
+    confirm_runaway(&mut report, id, file, &bin, "");
     report.finish()
 }
 
